@@ -1,4 +1,4 @@
-import Pycoin.Proofs.SighashFind
+import Pycoin.Proofs.SighashTail
 import Pycoin.Props.C07
 /-!
 C04 helper lemmas: the temporary transaction `_signature_hash` builds, serialised by `Tx.stream` and followed by the
@@ -337,12 +337,12 @@ theorem tmp_wf (tx : Tx) (hwf : tx.WF) (stripped : Bytes) (hs : LenOk stripped) 
 
 /-- **the bytes `_signature_hash` digests are the bytes `CTransactionSignatureSerializer` writes**, and the early
 return happens exactly when consensus returns the constant one -/
-theorem legacyPreimage_eq (c : Coin) (tx : Tx) (hwf : tx.WF) (idx : Nat) (hidx : idx < tx.ins.length)
-    (script : Bytes) (hc : Complete script) (hlen : LenOk script) (ht : Nat) (hht : ht < 2 ^ 32) :
+theorem legacyPreimage_eq_tw (c : Coin) (tx : Tx) (hwf : tx.WF) (idx : Nat) (hidx : idx < tx.ins.length)
+    (script : Bytes) (hc : TailWritten script) (hlen : LenOk script) (ht : Nat) (hht : ht < 2 ^ 32) :
     Sighash.legacyPreimage c tx script idx ht =
       .ok (if fHashSingle ht && decide (idx ≥ tx.outs.length) then none
            else some (Spec.Sighash.legacyPreimage tx idx script ht)) := by
-  obtain ⟨stripped, hdel, hsl, hser⟩ := strip_is_serializeScriptCode script hc
+  obtain ⟨stripped, hdel, hsl, hser⟩ := strip_is_serializeScriptCode_tw script hc
   have hs : LenOk stripped := by unfold LenOk at hlen ⊢; omega
   unfold Sighash.legacyPreimage
   rw [hdel]
@@ -370,5 +370,12 @@ theorem legacyPreimage_eq (c : Coin) (tx : Tx) (hwf : tx.WF) (idx : Nat) (hidx :
     obtain ⟨hol, hob⟩ := outsOf_bytes tx idx ht hb
     unfold Spec.Wire.legacy Spec.Sighash.legacyPreimage
     simp only [hil, hib, hol, hob, List.append_assoc]
+
+theorem legacyPreimage_eq (c : Coin) (tx : Tx) (hwf : tx.WF) (idx : Nat) (hidx : idx < tx.ins.length)
+    (script : Bytes) (hc : Complete script) (hlen : LenOk script) (ht : Nat) (hht : ht < 2 ^ 32) :
+    Sighash.legacyPreimage c tx script idx ht =
+      .ok (if fHashSingle ht && decide (idx ≥ tx.outs.length) then none
+           else some (Spec.Sighash.legacyPreimage tx idx script ht)) :=
+  legacyPreimage_eq_tw c tx hwf idx hidx script (tailWritten_of_complete hc) hlen ht hht
 
 end Pycoin.Sighash
